@@ -459,8 +459,10 @@ def s_requestheaders(vc):
     known = vc.case("connection", ["fresh", "authenticated", "other_connection_authenticated"])
     replay = vc.case("is_replay", [None, "request"])
     has_cred = vc.case("request_has_credential_header", [False, True])
-    fields0 = [(b"Host", b"example.com")] + ([(b"Proxy-Authorization", vc.sym_bytes("cred_value"))] if has_cred else [])
-    flow, client, req = mk_flow20(vc, "RegularMode", fields0, is_replay=replay, metadata=vc.dict([]))
+    mode = vc.case("proxy_mode", ["RegularMode", "UpstreamMode", "Socks5Mode", "TransparentMode", "ReverseMode"])
+    # Authorization belongs to the origin server in the proxy modes (and after a SOCKS5 handshake): it must never be touched here
+    fields0 = [(b"Host", b"example.com"), (b"Authorization", vc.sym_bytes("origin_cred"))] + ([(b"Proxy-Authorization", vc.sym_bytes("cred_value"))] if has_cred else [])
+    flow, client, req = mk_flow20(vc, mode, fields0, is_replay=replay, metadata=vc.dict([]))
     other = mk_client(vc, name="other")
     stored = (vc.sym_str("stored_user"), vc.sym_str("stored_pass"))
     entries = {"fresh": [], "authenticated": [(client, stored)], "other_connection_authenticated": [(other, stored)]}[known]
@@ -478,13 +480,13 @@ def s_requestheaders(vc):
     if with_validator and known == "authenticated":
         vc.ensure("authenticated_connection.metadata_from_handshake", vc.eq(_dict_get(vc, flow.metadata, "proxyauth"), stored))
     vc.ensure("authenticated_map_untouched", len_(self_.authenticated) == len(entries))
-    if with_validator and known == "authenticated" and has_cred:
+    if with_validator and known == "authenticated" and has_cred and mode in PROXY_MODES:
         # statement: "the credential header is removed before the request is forwarded" — also on a connection that was
         # authenticated by CONNECT (KF-C20-2: the header of a later request in the tunnel is left in place)
         names = [lower_name(vc, f) for f in header_fields(vc, req)]
         vc.ensure("authenticated_connection.credential_header_removed", b"proxy-authorization" not in names)  # was recorded finding KF-C20-2, repaired in /repo
-        vc.ensure("authenticated_connection.other_headers_untouched", [f for f in header_fields(vc, req) if lower_name(vc, f) != b"proxy-authorization"] == [] or
-                  vc.eq(tuple(f for f in header_fields(vc, req) if lower_name(vc, f) != b"proxy-authorization"), ((b"Host", b"example.com"),)))
+        vc.ensure("authenticated_connection.other_headers_untouched",
+                  vc.eq(tuple(f for f in header_fields(vc, req) if lower_name(vc, f) != b"proxy-authorization"), tuple(fields0[:2])))
     else:
         vc.ensure("request_untouched_here", vc.eq(raw_fields(vc, req), tuple(fields0)))
     if not must_auth:
